@@ -243,6 +243,8 @@ def msg_arg(msg):
         return "" if v is None else ("T" if v else "F")
     if c == "pause":
         return "T" if kw.get("defer", msg.args[0] if msg.args else False) else "F"
+    if c in ("install_suspender", "remove_suspender"):
+        return SUS_NAMES.get(id(msg.args[0]), "") if msg.args else ""
     if c in ("wait_for", "_start_suspender"):
         return getattr(msg, "_verif_fut", "") or FUT_NAMES.get(_fut_key(msg), "")
     return ""
@@ -252,6 +254,7 @@ DEV_ORDER = ["det", "det2", "mon1", "motor", "motor2", "pdet", "amotor", "apdet"
 DEV_KEYS = {"det": {"det"}, "det2": {"det2"}, "mon1": {"mon1"}, "motor": {"motor", "motor_setpoint"},
             "motor2": {"motor2", "motor2_setpoint"}, "pdet": {"pdet"}, "amotor": {"amotor", "amotor_setpoint"}, "apdet": {"apdet"}}
 GROUP_CMDS = ("set", "trigger", "stage", "unstage", "kickoff", "complete", "prepare", "wait")
+SUS_NAMES = {}     # id(suspender object) -> name, registered by the scenario runner
 FUT_NAMES = {}     # id(awaitable factory) -> name, registered by the scenario runner
 
 
